@@ -221,6 +221,12 @@ func bcryptHex(pw []byte) string {
 	if strings.HasPrefix(string(pw), "slow-") {
 		cost = 10 // a comparison that takes tens of milliseconds: room for another connection's login to overlap it
 	}
+	if strings.HasPrefix(string(pw), "vvslow-") {
+		cost = 15 // more than two seconds
+	}
+	if strings.HasPrefix(string(pw), "vslow-") {
+		cost = 14 // a comparison that takes more than a second: whatever a server does about slow requests happens
+	}
 	hb, err := xbcrypt.GenerateFromPassword(pw, cost)
 	if err != nil {
 		panic(err)
